@@ -216,13 +216,7 @@ theorem bcast_self (L : Nat) (r : Row) (h : r.length = L) : bcast L r = r := by
   · have : (r.length == 1) = false := by simpa using h1
     simp [this]
 
-/-! ## the line handling of `genfromtxt` on lines without comments -/
-
-theorem cutComment_id : ∀ (r : Row), (∀ g ∈ r, hasHash g = false) → cutComment r = r
-  | [], _ => rfl
-  | f :: t, h => by
-    simp only [cutComment, h f List.mem_cons_self, Bool.false_eq_true, if_false]
-    rw [cutComment_id t (fun g hg => h g (List.mem_cons_of_mem _ hg))]
+/-! ## the line handling of `genfromtxt` -/
 
 theorem mapLast_append_single (g : String → String) (z : String) : ∀ (l : Row), mapLast g (l ++ [z]) = l ++ [g z]
   | [] => rfl
@@ -232,16 +226,51 @@ theorem mapLast_append_single (g : String → String) (z : String) : ∀ (l : Ro
     simp only [List.cons_append] at ih ⊢
     simp only [mapLast, ih]
 
-theorem hasHash_eol : hasHash "\n" = false := by decide
 theorem rstrip_eol : rstrip "\n" = "" := by decide
 theorem fixDec_eol (c : Bool) : fixDec c "\n" = "\n" := by cases c <;> decide
 theorem fixDec_ident (c : Bool) : fixDec c "<Identifier>" = "<Identifier>" := by cases c <;> decide
 theorem fixDec_main (c : Bool) : fixDec c "MainRuns" = "MainRuns" := by cases c <;> decide
-theorem hasHash_ident : hasHash "<Identifier>" = false := by decide
-theorem hasHash_main : hasHash "MainRuns" = false := by decide
 theorem lstrip_main : lstrip "MainRuns" = "MainRuns" := by decide
 theorem lstrip_empty : lstrip "" = "" := by decide
-theorem hasHash_empty : hasHash "" = false := by decide
+
+/-- a line that ends with the delimiter and the terminator, whatever its fields hold (a `#` included):
+`genfromtxt(comments=None)` sees the same fields, the first stripped of leading blanks, the last one empty -/
+theorem gfSplit_line (f : String) (mid : Row) :
+    gfSplit (f :: (mid ++ ["\n"])) = lstrip f :: (mid ++ [""]) := by
+  unfold gfSplit
+  have hl : mapLast rstrip (lstrip f :: (mid ++ ["\n"])) = lstrip f :: (mid ++ [""]) := by
+    have := mapLast_append_single rstrip "\n" (lstrip f :: mid)
+    simpa [rstrip_eol] using this
+  simp only [mapHead, hl]
+  have : ((lstrip f :: (mid ++ [""])) == [""]) = false := by
+    rw [beq_eq_false_iff_ne]
+    intro he
+    have := congrArg List.length he
+    simp at this
+  rw [this]
+  simp
+
+/-- the non-blank lines of a block of lines that each split to something non-empty -/
+theorem gfLines_map {β : Type} (comma : Bool) (F G : β → Row) (L : List β)
+    (h : ∀ y ∈ L, gfSplit ((F y).map (fixDec comma)) = G y) (hne : ∀ y ∈ L, (G y).isEmpty = false) :
+    gfLinesWith gfSplit comma (L.map F) = L.map G := by
+  unfold gfLinesWith
+  rw [List.map_map]
+  have : L.map ((fun r => gfSplit (r.map (fixDec comma))) ∘ F) = L.map G :=
+    List.map_congr_left (fun y hy => h y hy)
+  rw [this]
+  apply List.filter_eq_self.mpr
+  intro r hr
+  obtain ⟨y, hy, rfl⟩ := List.mem_map.mp hr
+  simp [hne y hy]
+
+/-! ## NumPy's default `comments="#"` (the mechanism before e68affa) on lines without a `#` -/
+
+theorem cutComment_id : ∀ (r : Row), (∀ g ∈ r, hasHash g = false) → cutComment r = r
+  | [], _ => rfl
+  | f :: t, h => by
+    simp only [cutComment, h f List.mem_cons_self, Bool.false_eq_true, if_false]
+    rw [cutComment_id t (fun g hg => h g (List.mem_cons_of_mem _ hg))]
 
 /-- the decimal-comma replacement neither makes nor removes a `#` -/
 theorem hasHash_fixDec (c : Bool) (s : String) : hasHash (fixDec c s) = hasHash s := by
@@ -258,43 +287,21 @@ theorem hasHash_fixDec (c : Bool) (s : String) : hasHash (fixDec c s) = hasHash 
       · have : (a == ',') = false := beq_false_of_ne ha
         simp [this]
 
-/-- a line that ends with the delimiter and the terminator and carries no `#`: `genfromtxt` sees
-the same fields, the first stripped of leading blanks, the last one empty -/
-theorem gfSplit_line (f : String) (mid : Row) (h : ∀ g ∈ f :: mid, hasHash g = false) :
-    gfSplit (f :: (mid ++ ["\n"])) = lstrip f :: (mid ++ [""]) := by
-  unfold gfSplit
-  have hc : cutComment (f :: (mid ++ ["\n"])) = f :: (mid ++ ["\n"]) := by
-    apply cutComment_id
-    intro g hg
-    rcases List.mem_cons.mp hg with hg | hg
-    · exact h g (by rw [hg]; exact List.mem_cons_self)
-    · rcases List.mem_append.mp hg with hg | hg
-      · exact h g (List.mem_cons_of_mem _ hg)
-      · simp at hg; rw [hg]; exact hasHash_eol
-  have hl : mapLast rstrip (lstrip f :: (mid ++ ["\n"])) = lstrip f :: (mid ++ [""]) := by
-    have := mapLast_append_single rstrip "\n" (lstrip f :: mid)
-    simpa [rstrip_eol] using this
-  simp only [hc, mapHead, hl]
-  have : ((lstrip f :: (mid ++ [""])) == [""]) = false := by
-    rw [beq_eq_false_iff_ne]
-    intro he
-    have := congrArg List.length he
-    simp at this
-  rw [this]
-  simp
+/-- on a line without a `#` the old splitter is the new one -/
+theorem gfSplitOld_eq (r : Row) (h : ∀ g ∈ r, hasHash g = false) : gfSplitOld r = gfSplit r := by
+  unfold gfSplitOld
+  rw [cutComment_id r h]
 
-/-- the non-blank lines of a block of lines that each split to something non-empty -/
-theorem gfLines_map {β : Type} (comma : Bool) (F G : β → Row) (L : List β)
-    (h : ∀ y ∈ L, gfSplit ((F y).map (fixDec comma)) = G y) (hne : ∀ y ∈ L, (G y).isEmpty = false) :
-    gfLines comma (L.map F) = L.map G := by
-  unfold gfLines
-  rw [List.map_map]
-  have : L.map ((fun r => gfSplit (r.map (fixDec comma))) ∘ F) = L.map G :=
-    List.map_congr_left (fun y hy => h y hy)
-  rw [this]
-  apply List.filter_eq_self.mpr
+theorem gfLinesOld_eq (comma : Bool) (t : Table) (h : ∀ r ∈ t, ∀ g ∈ r, hasHash g = false) :
+    gfLinesWith gfSplitOld comma t = gfLinesWith gfSplit comma t := by
+  unfold gfLinesWith
+  congr 1
+  apply List.map_congr_left
   intro r hr
-  obtain ⟨y, hy, rfl⟩ := List.mem_map.mp hr
-  simp [hne y hy]
+  apply gfSplitOld_eq
+  intro g hg
+  obtain ⟨g', hg', rfl⟩ := List.mem_map.mp hg
+  rw [hasHash_fixDec]
+  exact h r hr g' hg'
 
 end Pew.Thermo
